@@ -366,6 +366,70 @@ def eval_case(desc):
     return out, info
 
 
+def trilinear_integrand(terms, nu, nv, cplx=False, absolute=False):
+    """f(*u_fields, *v_fields, *w_fields, p) = sum_k coef_k(p) * sum_abc C_k[a,b,c] op_k(u)[a] op'_k(v)[b] op''_k(w)[c]"""
+    def form(*args):
+        p = args[-1]
+        us, vs, ws = args[:nu], args[nu:nu + nv], args[nu + nv:-1]
+        out = 0.
+        for t in terms:
+            a, b, c = _op(us[t['fu'] % len(us)], t['ou']), _op(vs[t['fv'] % len(vs)], t['ov']), _op(ws[t['fw'] % len(ws)], t['ow'])
+            A, B, Cc = (x.reshape((-1,) + x.shape[-2:]) for x in (a, b, c))
+            C = _tensor(t['cseed'], (A.shape[0], B.shape[0], Cc.shape[0]))
+            co = _coef(t['coef'], p, cplx)
+            if absolute:
+                out = out + np.abs(co) * np.einsum('abc,aeq,beq,ceq->eq', np.abs(C), np.abs(A), np.abs(B), np.abs(Cc))
+            else:
+                out = out + co * np.einsum('abc,aeq,beq,ceq->eq', C, A, B, Cc)
+        return out
+    return form
+
+
+def eval_trilinear(desc):
+    """sum_abc T_abc w_a v_b u_c == Functional(f(u_h, v_h, w_h)) for three (different) bases"""
+    import random
+    from skfem.assembly import TrilinearForm, Functional
+    m = make_mesh(desc['mesh'], desc['mseed'])
+    r = random.Random(desc['tseed'] + 1)
+    small = [e for e in ELEMS[FAMILY[desc['mesh']]] if e not in ('ElementTriArgyris', 'ElementQuadBFS', 'ElementHex2', 'ElementTriP3',
+                                                                  'ElementQuadP(3)', 'ElementTetCCR', 'ElementHexS2', 'ElementTriHermite')]
+    eu, ev, ew = (r.choice(small) for _ in range(3))
+    d1 = dict(desc, eu=eu, ev=ev)
+    ub, vb = make_bases(d1, m)
+    wb, _ = make_bases(dict(desc, eu=ew, ev=ev), m)
+    if ub.Nbfun * vb.Nbfun * wb.Nbfun * ub.nelems > 40000:
+        return None, None
+    facet = desc['kind'] in ('facet', 'facets', 'ifacet')
+    ops = [[available_ops(f) for f in b.basis[0]] for b in (ub, vb, wb)]
+    coefs = ['one', 'x0', 'poly', 'h', 'scalar'] + (['n0'] if facet else [])
+    terms = []
+    for _ in range(r.randint(1, 2)):
+        fu, fv, fw = (r.randrange(len(o)) for o in ops)
+        terms.append({'fu': fu, 'ou': r.choice(ops[0][fu]), 'fv': fv, 'ov': r.choice(ops[1][fv]), 'fw': fw, 'ow': r.choice(ops[2][fw]),
+                      'coef': r.choice(coefs), 'cseed': r.randrange(10 ** 6)})
+    rng = np.random.default_rng(desc['seed'] + 9)
+    u, v, w = (rng.integers(-4, 5, size=b.N) / 4.0 for b in (ub, vb, wb))
+    nu, nv = len(ub.basis[0]), len(vb.basis[0])
+    f = trilinear_integrand(terms, nu, nv)
+    fabs = trilinear_integrand(terms, nu, nv, absolute=True)
+    par = {'s': 1.5}
+    T = TrilinearForm(f).assemble(ub, vb, wb, **dict(par))
+    Tabs = TrilinearForm(fabs).assemble(ub, vb, wb, **dict(par))
+    out = []
+    if tuple(T.shape) != (wb.N, vb.N, ub.N) or tuple(T.local_shape) != (wb.Nbfun, vb.Nbfun, ub.Nbfun):
+        out.append(('trilinear-shape', 1.0, 0.0))
+    # contraction straight from the triplets (the dense N-tensor path is corresponded on stubs)
+    lhs = float(np.sum(T.data * w[T.indices[0]] * v[T.indices[1]] * u[T.indices[2]]))
+    scale = float(np.sum(np.abs(Tabs.data) * np.abs(w[Tabs.indices[0]]) * np.abs(v[Tabs.indices[1]]) * np.abs(u[Tabs.indices[2]]))) + 1e-300
+    uh, vh, wh = _astuple(ub.interpolate(u)), _astuple(vb.interpolate(v)), _astuple(wb.interpolate(w))
+    J = Functional(lambda p: f(*p['uh'], *p['vh'], *p['wh'], p)).assemble(ub, uh=uh, vh=vh, wh=wh, **dict(par))
+    out.append(('Twvu=J', abs(lhs - J), scale))
+    if ub.N * vb.N * wb.N <= 30000 and len(T.data) <= 6000:
+        Td = T.toarray()
+        out.append(('toarray3', abs(float(np.einsum('abc,a,b,c', Td, w, v, u)) - lhs), scale))
+    return out, {'elements': (eu, ev, ew), 'Nbfun': (int(ub.Nbfun), int(vb.Nbfun), int(wb.Nbfun)), 'nelems': int(ub.nelems), 'terms': terms}
+
+
 def nontrivial(desc, info):
     return info['nelems'] >= 2 and (desc['eu'] != desc['ev'] or info['Nbfun'][0] >= 2)
 
@@ -377,6 +441,7 @@ def run(ctx):
     n = ctx.n(400, 5000)
     worst = 0.0
     stats = {}
+    ntri = 0
     for c in range(n):
         desc = gen_case(rng, ctx.quick())
         key = f"real:{FAMILY[desc['mesh']]}:{desc['kind']}"
@@ -397,12 +462,28 @@ def run(ctx):
         stats['trial!=test'] = stats.get('trial!=test', 0) + (desc['eu'] != desc['ev'])
         if c < 3:
             ctx.sample({'kind': 'oracle case', 'desc': desc, 'info': info, 'checks': [(a, float(b), float(s)) for a, b, s in res]})
+        if c % 6 == 0 and desc['kind'] != 'cells2':
+            try:
+                r3, i3 = eval_trilinear(desc)
+            except Exception as e:
+                import traceback
+                ctx.fail(key + ':trilinear:exception', f'{type(e).__name__}: {e}', {'oracle_case': dict(desc, trilinear=True),
+                                                                                    'traceback': traceback.format_exc()[-1500:]})
+                r3 = None
+            if r3 is not None:
+                ntri += 1
+                ctx.count(('trilinear', desc), nontrivial=len(set(i3['elements'])) >= 2)
+                ctx.hist('trilinear elements distinct', len(set(i3['elements'])))
+                res = res + [(n_, e_, s_) for n_, e_, s_ in r3]
+                info = dict(info, trilinear=i3)
         for name, err, scale in res:
             rel = err / scale if scale > 0 else float('inf')
             worst = max(worst, rel if np.isfinite(rel) else 0.0)
             if not (err <= TOL * scale):
                 ctx.fail(key + ':' + name, f'{name}: discrepancy {err:.3e} (scale {scale:.3e}, tolerance {TOL:g}*scale)',
-                         {'oracle_case': desc, 'info': info, 'check': name, 'error': float(err), 'scale': float(scale)})
+                         {'oracle_case': dict(desc, trilinear=name in ('Twvu=J', 'toarray3', 'trilinear-shape')), 'info': info,
+                          'check': name, 'error': float(err), 'scale': float(scale)})
+    stats['trilinear cases'] = ntri
     ctx.extra['oracle'] = {'cases': n, 'max_relative_discrepancy': worst, 'tolerance': TOL,
                            'margin_factor': (TOL / worst) if worst > 0 else None, **stats}
     ctx.log(f'oracle: {n} real-basis cases, max relative discrepancy {worst:.2e} (tolerance {TOL:g})')
@@ -413,6 +494,9 @@ def replay(ctx, inp):
     warnings.simplefilter('ignore')
     desc = inp['oracle_case']
     res, info = eval_case(desc)
+    if desc.get('trilinear'):
+        r3, _ = eval_trilinear(desc)
+        res = res + (r3 or [])
     for name, err, scale in res:
         ctx.log(f'replay {name}: error {err:.3e} scale {scale:.3e}')
         if not (err <= TOL * scale):
